@@ -5,11 +5,13 @@ HERE = os.path.dirname(os.path.dirname(os.path.abspath(__file__)))
 rows = []
 n = missed = 0
 for d in sorted(glob.glob(os.path.join(HERE, "seeded", "*", ""))):
+    if not os.path.exists(d + "meta.json"):
+        continue  # being evaluated right now
     m = json.load(open(d + "meta.json"))
     caught = ", ".join("%s (%d)" % (k, v["violations"]) for k, v in sorted(m["quick_checks"].items()) if v["exit"] == 1)
     n += 1
     missed += 1 if m.get("history", "").startswith("initially") else 0
-    rows.append("| %s | %d | %s | %s | %s |" % (m["name"], m.get("round", 1), m.get("needs_to_manifest", ""), caught, "strengthened" if m.get("history") else ""))
+    rows.append("| %s | %d | %s | %s | %s |" % (m["name"], m.get("round", 1), m.get("needs_to_manifest", ""), caught, "strengthened" if m.get("history", "").startswith("initially") else ("neighbour" if m.get("history") else "")))
 table = "| seeded change | round | needs to manifest | caught by (quick; witnesses, capped at 10) | |\n|---|---|---|---|---|\n" + "\n".join(rows)
 p = os.path.join(HERE, "DESIGN.md")
 s = open(p).read()
